@@ -13,7 +13,10 @@ LEVEL_TEXT = ('Generated inner programs (depth <= 2: params, Dense, nested child
               'auto-generated names, 6 `mutable` filters, variables/rngs lifting filters, deliberate writes to immutable collections, '
               'and call histories (<= 4 calls on one instance interleaving mutable changes, variable-structure changes and attribute '
               'changes). Compared: outputs, set and values of updated collections, init trees (up to the transformed class name), '
-              'parent draws after the lifted region, determinism of jitted draws per call index.')
+              'parent draws after the lifted region, determinism of jitted draws per call index.'
+              ' Further streams: sub-modules called before / inside / after a region, outer jit and grad around the'
+              ' lifted program, attribute-only stale-trace probes with colliding hashes, attribute sub-modules in every'
+              ' field order, lifted helper methods that create auto-named layers, nn.jit positional keyword arguments.')
 LEVEL_NOTE = ('nn.remat needs the jax.checkpoint compat alias. Under nn.jit random draws inside the lifted module differ from the plain '
               'program by design (fork_rngs): only determinism per call site is demanded there. map_variables follows the documented idiom '
               'init=self.is_initializing().')
